@@ -738,10 +738,92 @@ func (fr *Frame) cellsAssignedIn(li *loopInfo) []*ssa.Alloc {
 			}
 		}
 	}
+	// a local that a function literal captures AND assigns is assigned by every call in the loop that may run
+	// that literal (it is called directly, handed to a callee, or was stored somewhere earlier): such locals are
+	// forgotten at every loop that calls anything at all
+	hasCall := false
+	for b := range li.blocks {
+		for _, in := range b.Instrs {
+			if _, ok := in.(ssa.CallInstruction); ok {
+				hasCall = true
+			}
+		}
+	}
+	if hasCall {
+		for _, a := range capturedAssigned(fr.fn) {
+			if !seen[a] {
+				seen[a] = true
+				out = append(out, a)
+			}
+		}
+	}
 	sort.Slice(out, func(i, j int) bool {
 		return out[i].Pos() < out[j].Pos() || (out[i].Pos() == out[j].Pos() && out[i].Name() < out[j].Name())
 	})
 	return out
+}
+
+var capturedAssignedCache = map[*ssa.Function][]*ssa.Alloc{}
+
+// capturedAssigned returns the locals of fn that some function literal made in fn captures and stores to
+// (directly or in a literal nested in it).
+func capturedAssigned(fn *ssa.Function) []*ssa.Alloc {
+	if r, ok := capturedAssignedCache[fn]; ok {
+		return r
+	}
+	var out []*ssa.Alloc
+	seen := map[*ssa.Alloc]bool{}
+	for _, b := range fn.Blocks {
+		for _, in := range b.Instrs {
+			mc, ok := in.(*ssa.MakeClosure)
+			if !ok {
+				continue
+			}
+			lit, ok := mc.Fn.(*ssa.Function)
+			if !ok {
+				continue
+			}
+			for i, bv := range mc.Bindings {
+				a, ok := bv.(*ssa.Alloc)
+				if !ok || seen[a] || i >= len(lit.FreeVars) {
+					continue
+				}
+				if storesFreeVar(lit, lit.FreeVars[i], 0) {
+					seen[a] = true
+					out = append(out, a)
+				}
+			}
+		}
+	}
+	capturedAssignedCache[fn] = out
+	return out
+}
+
+func storesFreeVar(lit *ssa.Function, fv *ssa.FreeVar, depth int) bool {
+	if depth > 8 {
+		return true
+	}
+	for _, b := range lit.Blocks {
+		for _, in := range b.Instrs {
+			switch x := in.(type) {
+			case *ssa.Store:
+				if x.Addr == ssa.Value(fv) {
+					return true
+				}
+			case *ssa.MakeClosure:
+				inner, ok := x.Fn.(*ssa.Function)
+				if !ok {
+					continue
+				}
+				for i, bv := range x.Bindings {
+					if bv == ssa.Value(fv) && i < len(inner.FreeVars) && storesFreeVar(inner, inner.FreeVars[i], depth+1) {
+						return true
+					}
+				}
+			}
+		}
+	}
+	return false
 }
 
 func (fr *Frame) enterLoop(st *State, li *loopInfo, run *loopRun) *State {
